@@ -7,7 +7,7 @@ ID = "C11"
 INFO = ("YNest (TLA+): the recursion that nesting causes as a counter machine (one level of recursion in Parser::load / Drop / Clone / Eq / Hash / the emitter per open collection), "
         "with the parser's nesting limit; MC_Nest checks that the recursion is bounded by a constant independent of the input (and MC_Nest_nolimit, the code before the repair, violates it). "
         "YParser carries the same limit, so MC_Pipeline/MC_ParserPDA cover its error path. Scenarios {8 nesting shapes: '- ', 'k:' per level, '? ', '[', '{a:', alternating block, "
-        "alternating flow, '- k:'} x depth {1 .. 10^4 quick, .. 10^5 thorough, dense around the limits 255 and 1000} x API {iterator, load, load_from_str + drop, clone + eq + hash, emit} "
+        "alternating flow, '- k:'} x depth {1 .. 10^5 (thorough: also 3*10^5), dense around the limits 255 and 1000} x API {iterator, load, load_from_str + drop, clone + eq + hash, emit} "
         "each run in its own process on the default 8 MiB main-thread stack; exit status and the recursion depth seen by the `load` hook are judged by Trace_Nest in TLC.",
         "Stack bytes are not modelled (recursion depth is); the byte-level consequence is observed in a child process with the default main-thread stack.",
         "TLA+ model checking of the recursion bound + TLC trace validation of per-process scenario outcomes", "7/C11")
@@ -32,9 +32,9 @@ def run(ck):
     except Exception as e:
         ap.append("unavailable: %s" % e)
     ck.extra["apalache_inductive_invariant"] = {"obligations": ["Init => IndInv", "IndInv /\\ Next => IndInv'", "IndInv => Bounded"], "discharged": ap}
-    depths = "1,10,100,254,255,256,257,900,998,999,1000,1001,1002,1100,3000,10000"
+    depths = "1,10,100,254,255,256,257,900,998,999,1000,1001,1002,1100,3000,10000,30000,100000"
     if ck.tier == "thorough":
-        depths += ",30000,100000"
+        depths += ",300000"
     out = ck.wd("c11.ndjson")
     s = vh_json(["c11", "--out", out, "--depths", depths], timeout=7200)
     ck.evaluations += s["scenarios"]
